@@ -57,7 +57,14 @@ def closure_of(ctx, pid):
     if key not in ctx.cache:
         entries = [q for q in P.ENTRY_POINTS.get(pid, ())
                    if ctx.model.has_func(q)]
-        ctx.cache[key] = ctx.res.reachable(entries) if entries else set()
+        clo = ctx.res.reachable(entries) if entries else set()
+        # whatever computes with the Calendar singleton depends on the
+        # function that fills it
+        if clo and ctx.model.has_func("data.Calendar.set_mode") and any(
+                q.startswith("data.") for q in clo):
+            clo = set(clo) | {"data.Calendar.set_mode",
+                              "data.Calendar.__init__"}
+        ctx.cache[key] = clo
     return ctx.cache[key]
 
 
@@ -75,6 +82,15 @@ def obs_for(ctx, pid):
     construct lies in a function its operations reach."""
     rep = ctx.rep
     out = [o for o in rep.obs if pid in o.props]
+    inh = getattr(P, "INHERIT_TAGS", {}).get(pid, ())
+    if inh:
+        have = {id(o) for o in out}
+        for o in rep.obs:
+            if id(o) in have or o.verdict == "note":
+                continue
+            r0 = o.rule.split(".")[0]
+            if any(r0 == r and tag in o.props for r, tag in inh):
+                out.append(o)
     if pid in P.ENTRY_POINTS:
         clo = closure_of(ctx, pid)
         core = set(P.CORE_RULES)
@@ -93,6 +109,9 @@ def obs_for(ctx, pid):
 
 def rules_for(pid):
     rules = list(P.PROPS[pid]["rules"])
+    for r, _tag in getattr(P, "INHERIT_TAGS", {}).get(pid, ()):
+        if r not in rules:
+            rules.append(r)
     if pid in P.ENTRY_POINTS:
         rules += [r for r in P.CORE_RULES if r not in rules]
     return rules
